@@ -114,6 +114,11 @@ class Harness:
             if k_ not in env and not any(k_ == pn for pn, _, _, _ in self.ptypes):
                 env[k_] = v_          # ghost constants of the contract (leading dimensions, PI, ...)
         ev0 = Evaluator(env, qrange=self.qrange(env))
+        if self.contract.interp:
+            try:
+                ev0.funcs.update(self.contract.interp(self, ev0, env))
+            except Exception:
+                pass
         for lab, r in self.requires:
             try:
                 if not ev0.ev(r):
